@@ -1098,6 +1098,9 @@ static std::string vg_first_lib_frame(const std::string& txt) {
             continue;
         }
         std::string fn = line.substr(c + 2);
+        for (auto an = fn.find("(anonymous namespace)::"); an != std::string::npos; an = fn.find("(anonymous namespace)::")) {
+            fn.erase(an, 23);
+        }
         const auto par = fn.find('(');
         if (par != std::string::npos) {
             fn = fn.substr(0, par);
